@@ -208,6 +208,47 @@ def check_scheme(ctx, s, Y=None, nvs=None):
             ctx.sample({"scheme": s, "position": pos, "n_points": int(len(Yc)), "example_y": [float(Yc[7].real), float(Yc[7].imag)], "constants": consts[:3]})
 
 
+def check_pi4_1d(ctx, s):
+    """pi/4-QPSK has a separate unbatched code path: a 1-D tensor of symbols (positions alternate between the two constellations)."""
+    import torch
+    rng = np.random.RandomState(ctx.seed + 9)
+    mod, dem = mc.build(s)
+    cell = {**s, "layout": "1d"}
+    tabs = [ref_table(s, mod, 0), ref_table(s, mod, 1)]
+    N = 400
+    Y = ((rng.randn(N) + 1j * rng.randn(N)) * 1.2).astype(np.complex64)
+    pts = np.stack([tabs[i % 2][0] for i in range(N)])
+    D = np.abs(Y.astype(np.complex128)[:, None] - pts) ** 2
+    lab = tabs[0][1]
+    mc.reset(dem)
+    ok, idx = ctx.call(lambda: dem(torch.from_numpy(Y)).numpy(), "C06.a_raises", cell, {"scheme": s, "layout": "1d"}, checker="c06:replay_pi4_1d")
+    if ok:
+        ctx.ev(N)
+        dn = np.sqrt(D.min(axis=1))
+        good = np.sqrt(D[np.arange(N), np.asarray(idx).astype(int) % 4]) <= dn + TOL if np.asarray(idx).shape == (N,) else np.zeros(N, bool)
+        ctx.nontrivial_many(("pi4_1d", str(cell)), range(N))
+        ctx.check(bool(np.all(good)), "C06.a_nearest", cell, {"scheme": s, "layout": "1d"}, int((~good).sum()), 0, "unbatched hard decision is not the index of a nearest point of the position's constellation", "c06:replay_pi4_1d")
+    D0 = np.stack([np.where(lab[:, j] == 0, D, np.inf).min(axis=1) for j in range(2)], axis=1)
+    D1 = np.stack([np.where(lab[:, j] == 1, D, np.inf).min(axis=1) for j in range(2)], axis=1)
+    diff = D1 - D0
+    for nv in (0.01, 1.0, 100.0):
+        mc.reset(dem)
+        ok, llr = ctx.call(lambda: dem(torch.from_numpy(Y), noise_var=nv).numpy().reshape(N, 2).astype(np.float64), "C06.b_raises", cell, {"scheme": s, "layout": "1d", "noise_var": nv}, checker="c06:replay_pi4_1d")
+        if not ok:
+            continue
+        well = np.abs(diff) > 1e-3
+        ctx.ev(int(well.sum()))
+        bad = well & (np.sign(llr) != np.sign(diff))
+        ctx.check(not bad.any(), "C06.c_sign", cell, {"scheme": s, "layout": "1d", "noise_var": nv}, int(bad.sum()), 0, "unbatched LLR sign disagrees with log P(bit=0)/P(bit=1)", "c06:replay_pi4_1d")
+        r = (llr * nv / np.where(well, diff, 1.0))[well]
+        c = float(np.median(r))
+        ctx.check(c > 0 and bool(np.all(np.abs(r - c) <= 5e-3 * abs(c) + 1e-4)), "C06.b_maxlog", cell, {"scheme": s, "layout": "1d", "noise_var": nv}, c, "one positive constant", checker="c06:replay_pi4_1d")
+
+
+def replay_pi4_1d(ctx, cell, case):
+    check_pi4_1d(ctx, case["scheme"])
+
+
 def check_case(ctx, cell, case):
     s = case["scheme"]
     y = case.get("y")
@@ -222,6 +263,8 @@ def check_case(ctx, cell, case):
 def unit_schemes(ctx, schemes):
     for s in schemes:
         ok, _ = ctx.call(lambda: check_scheme(ctx, s), "C06.scheme_raises", dict(s), {"scheme": s}, checker=CHK)
+        if s["scheme"] == "pi4qpsk":
+            ctx.call(lambda: check_pi4_1d(ctx, s), "C06.scheme_raises", {**s, "layout": "1d"}, {"scheme": s, "layout": "1d"}, checker="c06:replay_pi4_1d")
 
 
 def units(tier, seed):
